@@ -169,6 +169,13 @@ def main():
                     if k_ != "rounds" and n_:
                         v.deviation("grow:module:%s" % k_, dict(modres[key], configuration=key))
         stats["module_level"] = modres
+        # ... and with the memory imported as well as defined, deltas above 16 pages, a maximum that is reached, and the threads arranged
+        # on one instance, on instances of their own over the same memory, on child instances (bind/c/shared_module.c)
+        import sharedmod
+        smres, smprobs = sharedmod.run_all(wd, w2c2, tier, "C18")
+        for what, det in smprobs:
+            v.deviation("grow:module:%s" % what, det)
+        stats["module_level_arrangements"] = {k_: {f_: r_[f_] for f_ in ("rounds",) + sharedmod.FIELDS["C18"]} for k_, r_ in smres.items()}
         # 3. race clause: ThreadSanitizer on real threads
         tsan = os.path.join(wd, "tsan")
         rc, out, err = run(["gcc", "-O1", "-g", "-w", "-fsanitize=thread", "-DWASM_THREADS_PTHREADS", "-I", os.path.join(REPO, "w2c2"),
